@@ -123,7 +123,7 @@ def gen_cases(tier):
 
 
 def materialise(files):
-    root = tempfile.mkdtemp(prefix="c15-", dir="/dev/shm" if os.path.isdir("/dev/shm") else None)
+    root = tempfile.mkdtemp(prefix="c15-", dir=H.TMP)
     for p, b in files.items():
         full = os.path.join(root, p)
         os.makedirs(os.path.dirname(full), exist_ok=True)
@@ -153,7 +153,7 @@ def _dirarg():
 
 def run_history(history, root, plan=None, intercept=True):
     """Run the command in a forked child (cwd=root) under the interposer; returns (result, effect log)."""
-    log_path = tempfile.mktemp(prefix="c15log-", dir="/dev/shm" if os.path.isdir("/dev/shm") else None)
+    log_path = tempfile.mktemp(prefix="c15log-", dir=H.TMP)
     holder = {}
 
     def pre():
